@@ -470,6 +470,19 @@ def run(res, tier, seed):
                           {"case": r["name"], "fail": f},
                           {"adversarial": r["name"]})
     res.section("adversarial", cases=len(adv), executions=na)
+    # post-handshake authentication: the chain is recorded only after the
+    # client's CertificateVerify *and* Finished verify (corruption of each
+    # message of the client's flight, CertificateVerify omitted)
+    from . import c05
+    r = c05.pha_case((tier, seed))
+    res.count(r["n"])
+    for sg in r["sigs"]:
+        res.outcome(("pha-proof",) + tuple(sg))
+    for (lab, f) in r["fails"]:
+        res.violation({"part": "pha-proof", "class": lab.split("[")[0]},
+                      {"corruption": lab, "fail": f}, {"pha": lab})
+    res.section("post_handshake_auth_proof", executions=r["n"])
+    na += r["n"]
     res.coverage["distinct_nontrivial"] = states + na
     res.assumptions += [
         "state abstraction: none (every history is executed); payload bytes "
